@@ -270,7 +270,13 @@ func traceHTTP(o opts) error {
 			var rbody []byte
 			cli := "-"
 			res := "-"
+			var creq []byte
 			do := func(req *http.Request) (*http.Response, error) {
+				if via == "client" && req.Body != nil {
+					// what the real client put on the wire
+					creq, _ = io.ReadAll(req.Body)
+					req.Body = io.NopCloser(bytes.NewReader(creq))
+				}
 				req.RemoteAddr = addr
 				rec := httptest.NewRecorder()
 				mux.ServeHTTP(rec, req)
@@ -336,10 +342,10 @@ func traceHTTP(o opts) error {
 			if err != nil {
 				disk = "ERR:" + hx(err.Error())
 			}
-			emit("http\tm=%s\tct=%s\tnb=%s\taddrok=%s\taddr=%s\twhofail=%s\ttags=%s\tlogin=%s\tnode=%s\tcap1=%s\tcap2=%s\tep=%s\tbodyok=%s\tn=%s\tv=%d\tuic=%s\tval=%s\tvia=%s\tstatus=%d\trbody=%s\tres=%s\tcli=%s\tent=%s\tpre=%s\tmem=%s\tdisk=%s\tgen=%d",
+			emit("http\tm=%s\tct=%s\tnb=%s\taddrok=%s\taddr=%s\twhofail=%s\ttags=%s\tlogin=%s\tnode=%s\tcap1=%s\tcap2=%s\tep=%s\tbodyok=%s\tn=%s\tv=%d\tuic=%s\tval=%s\tvia=%s\tstatus=%d\trbody=%s\tres=%s\tcli=%s\tent=%s\tpre=%s\tmem=%s\tdisk=%s\tgen=%d%s",
 				hx(method), hx(ct), hx(nb), b01(addr != "garbage"), hx(strings.Split(addr, ":")[0]), b01(ws.fails), joinHexX(ws.tags), hx(ws.login), hx(ws.node),
 				encCap(ws.cap1, ws.rules1), encCap(ws.cap2, ws.rules2), ep, b01(bodyOK), hx(fn), fv, b01(fuic), hb(fval), via,
-				status, hb(rbody), res, cli, ent, pre, mem, disk, w.d.WriteGen())
+				status, hb(rbody), res, cli, ent, pre, mem, disk, w.d.WriteGen(), creqField(via, creq))
 		}
 		cancel()
 		w.close()
@@ -429,3 +435,11 @@ func decodeResp(ep string, body []byte) string {
 }
 
 var _ = rand.Int
+
+
+func creqField(via string, creq []byte) string {
+	if via != "client" {
+		return ""
+	}
+	return "\tcreq=" + hb(creq)
+}
